@@ -141,6 +141,22 @@ theorem cursor_nonempty (tw cw : String → Nat) (f : Frame) (t : Term)
       simp only [hcl, Bool.false_eq_true, if_false, visRun_append, List.nil_append]
       rw [h2, hbq, h3, ht]; simp [visRun, visStep]
 
+/-- A frame that requests the cursor hidden leaves it hidden — empty body (cursor-only branch of the
+    writer) or not, whatever the screen's size (an empty screen included) and wherever the cursor was
+    — given only that a cursor last rendered hidden is hidden on the terminal. -/
+theorem cursor_hidden (tw cw : String → Nat) (f : Frame) (t : Term) (hv : f.cursorNext.visible = false)
+    (hvis : f.cursorLast.visible = false → t.cursorVisible = false) :
+    CursorAs (run tw t (renderFrame cw f).2) f.cursorNext := by
+  by_cases hne : (renderBody cw f).2 = []
+  · simp only [CursorAs, hv, Bool.false_eq_true, if_false]
+    unfold renderFrame flush
+    simp only [hne, List.isEmpty_nil, if_true, hv, Bool.false_eq_true, not_false_eq_true, true_and]
+    by_cases hcl : f.cursorLast.visible = true
+    · simp [hcl, run, step]
+    · simp only [hcl, if_false, Bool.false_eq_true]
+      simpa [run] using hvis (by simpa using hcl)
+  · exact cursor_nonempty tw cw f t (fun h => absurd h (by simp [hv])) hne hvis
+
 open VaxisModel.Lemmas.RenderDisplay in
 /-- On a refresh the cell loop writes the first cell of a row (if it is not under an image). -/
 theorem renderCells_out_nonempty (cw : String → Nat) (caps : Caps) (row col : Nat) (track : Bool) (dirty : Nat)
